@@ -42,7 +42,7 @@ impl From<Apodization> for ApodizationConfig {
     match apodization {
       Apodization::Off => Self::Off,
       Apodization::Gaussian { fwhm } => Self::Gaussian {
-        fwhm_um: *(fwhm / (MICRO * M)),
+        fwhm_um: sigfigs(*(fwhm / (MICRO * M)), SIG_FIGS_IN_CONFIG),
       },
       Apodization::Bartlett(a) => Self::Bartlett(a),
       Apodization::Blackman(a) => Self::Blackman(a),
